@@ -553,7 +553,7 @@ func c08PipelinedDeselect(c *Ctx) {
 			go func(i int) {
 				defer wg.Done()
 				defer func() { <-sem }()
-				r := res{variant: "select,deselect,select"}
+				r := res{variant: c08Burst(i)}
 				cfg := rspCfg{active: false, session: 0xFFFF}
 				ep, err := newRspEndpoint(cfg)
 				if err != nil {
@@ -574,11 +574,13 @@ func c08PipelinedDeselect(c *Ctx) {
 					return
 				}
 				defer p.Close()
-				fs := []PFrame{mkFrame(0xFFFF, 0, 0, 0, 1, sysOf(1), nil), mkFrame(0xFFFF, 0, 0, 0, 3, sysOf(2), nil)}
-				if i%2 == 0 {
-					fs = append(fs, mkFrame(0xFFFF, 0, 0, 0, 1, sysOf(3), nil))
-				} else {
-					r.variant = "select,deselect"
+				var fs []PFrame
+				for k, ch := range r.variant {
+					st := byte(1) // Select.req
+					if ch == 'D' {
+						st = 3 // Deselect.req
+					}
+					fs = append(fs, mkFrame(0xFFFF, 0, 0, 0, st, sysOf(uint32(k+1)), nil))
 				}
 				if err := p.Send(fs...); err != nil {
 					r.err = err.Error()
@@ -605,10 +607,27 @@ func c08PipelinedDeselect(c *Ctx) {
 			c.Violate("correspondence", "script-run-failed", r.err, nil)
 			continue
 		}
-		want := []string{"C:ffff0000000200000001", "C:ffff0000000400000002"}
+		// E37 reference: a two-state machine over the burst
+		var want []string
+		sel := false
+		for k, ch := range r.variant {
+			status := 0
+			if ch == 'S' {
+				if sel {
+					status = 1
+				}
+				sel = true
+				want = append(want, fmt.Sprintf("C:ffff00%02x0002%08x", status, k+1))
+			} else {
+				if !sel {
+					status = 1
+				}
+				sel = false
+				want = append(want, fmt.Sprintf("C:ffff00%02x0004%08x", status, k+1))
+			}
+		}
 		wantState := hsms.NotSelectedState
-		if r.variant == "select,deselect,select" {
-			want = append(want, "C:ffff0000000200000003")
+		if sel {
 			wantState = hsms.SelectedState
 		}
 		if strings.Join(r.wire, " ") != strings.Join(want, " ") || r.state != wantState {
@@ -621,6 +640,35 @@ func c08PipelinedDeselect(c *Ctx) {
 		}
 	}
 	c.StatN("pipelined-deselect:violating-runs", bad)
+}
+
+// c08Burst is the i-th burst of Select.req (S) / Deselect.req (D) a peer writes in ONE TCP write to a freshly
+// connected passive endpoint: the two shapes of finding F9 first, then longer alternations (two or more Deselect
+// commits outstanding while the supervisor lags — after seeded change C08b-2), redundant requests, and a
+// deterministic pseudo-random tail.
+func c08Burst(i int) string {
+	fixed := []string{"SDS", "SD", "SDSD", "SDSDS", "SDSDSD", "SDSDSDS", "SDSDSDSD", "SSD", "SDD", "SDDS", "SSDSD", "DSDSD", "DS", "SDSSD"}
+	if i < 2*len(fixed) {
+		return fixed[i%len(fixed)]
+	}
+	x := uint32(i)*2654435761 + 12345
+	n := 3 + int(x>>28)%6
+	b := make([]byte, n)
+	for k := range b {
+		x = x*1664525 + 1013904223
+		if (x>>16)%4 == 0 { // mostly alternate, sometimes repeat
+			if k > 0 {
+				b[k] = b[k-1]
+			} else {
+				b[k] = 'S'
+			}
+		} else if k > 0 && b[k-1] == 'S' {
+			b[k] = 'D'
+		} else {
+			b[k] = 'S'
+		}
+	}
+	return string(b)
 }
 
 func sortInts(a []int) {
